@@ -628,9 +628,9 @@ class Sc:
         """witnesses of two repaired losses of pending AI lines (ghost oracle only: the per-file model script has no
         partial commit / path checkout):
         stash-after-partial-commit  agent inserts 2 lines in f; a partial commit of ANOTHER file leaves them pending in
-                                    INITIAL; plain `git stash` (no subcommand); `git stash pop`; commit (bc4ff2a4, stash_hooks.rs)
+                                    INITIAL; plain `git stash` (no subcommand); `git stash pop`; commit (d7a2861e, stash_hooks.rs)
         stage-edit-checkout         agent inserts a line; `git add f`; a person appends a line; `git checkout -- f`; commit:
-                                    the staged AI line survives (11d1e52e, checkout_hooks.rs)"""
+                                    the staged AI line survives (5855e9da, checkout_hooks.rs)"""
         self.model_ok = False
         self.base(nfiles=2)
         f, other = self.files[0], self.files[1]
@@ -656,7 +656,7 @@ class Sc:
 
     def t_fixed_pairing(self, which):
         """witnesses of the repaired copy of a source note onto the rewritten commit AT THE SAME POSITION of the
-        range (74aa63f9, rebase_authorship.rs:note_carried_over_without_lines; Lean: regression_fixup_person_commit_next,
+        range (082b3ae9, rebase_authorship.rs:note_carried_over_without_lines; Lean: regression_fixup_person_commit_next,
         regression_reorder_person_commit_first, regression_cherry_pick_ai_line_already_upstream; the replay pairs source and new commits by position, oldest first). A rewritten commit in which the
         replay found no AI line got the raw note of its positional partner, line numbers included; after `fixup` /
         `squash` (two source commits become one new commit) and after a reorder the partner is another change, and
@@ -718,7 +718,7 @@ class Sc:
         return which
 
     def t_fixed(self, which):
-        """witnesses of the two repaired defects of the content-replay path (3d512cdb, 5c3b3e4a)"""
+        """witnesses of the two repaired defects of the content-replay path (13fa6d80, f7e364fb)"""
         if which in FIXED_PENDING:
             return self.t_fixed_pending(which)
         if which in FIXED_PAIRING:
@@ -872,8 +872,8 @@ def full_sig(fam, sig, d):
       that later session in the rebased version of the earlier commit (tokens of the final state survive
       the diff chain).
     Blocks of several authors and AI lines rewritten later in the range were repaired in /repo
-    (3d512cdb, 5c3b3e4a), and so was the raw copy of the positional partner's note onto a rewritten commit
-    without AI lines (74aa63f9; squash / fixup / reorder): no classifier for them, they are reported as violations."""
+    (13fa6d80, f7e364fb), and so was the raw copy of the positional partner's note onto a rewritten commit
+    without AI lines (082b3ae9; squash / fixup / reorder): no classifier for them, they are reported as violations."""
     if sig == "human-tweak-of-ai-line-still-ai":
         return sig
     base = fam.split("+tail-")[0]
